@@ -35,12 +35,13 @@ type Read struct {
 // run with seed s is vh.NewRng(s, prop, "tape/"+label, id); two runs that differ only in
 // one party's label differ only in that party's randomness.
 type Tape struct {
-	mu    sync.Mutex // the library reads a caller's prng from several goroutines (sigand branches)
-	src   io.Reader
-	Bytes []byte // every byte served so far
-	Reads []Read
-	Mark  string
-	Chunk int // > 0: serve at most Chunk bytes per Read call
+	mu     sync.Mutex // the library reads a caller's prng from several goroutines (sigand branches)
+	src    io.Reader
+	Bytes  []byte // every byte served so far
+	Reads  []Read
+	Mark   string
+	Chunk  int                              // > 0: serve at most Chunk bytes per Read call
+	Tamper func(t *Tape, off int, p []byte) // see DefaultTamper
 }
 
 // DefaultChunk, when > 0, makes every tape created afterwards serve at most that many bytes per
@@ -49,7 +50,14 @@ type Tape struct {
 // code that ignores the byte count of a short read leaves part of a "random" value constant.
 var DefaultChunk int
 
-func NewTape(src io.Reader) *Tape { return &Tape{src: src, Chunk: DefaultChunk} }
+// DefaultTamper, when non-nil, is called by every tape created afterwards on the bytes of each Read
+// (after they are drawn from the stream, before they are served and recorded); it may overwrite p in
+// place. A harness uses it to serve a tape that differs from a base run in exactly one Read segment.
+var DefaultTamper func(t *Tape, off int, p []byte)
+
+func NewTape(src io.Reader) *Tape {
+	return &Tape{src: src, Chunk: DefaultChunk, Tamper: DefaultTamper}
+}
 
 func (t *Tape) Read(p []byte) (int, error) {
 	t.mu.Lock()
@@ -58,6 +66,9 @@ func (t *Tape) Read(p []byte) (int, error) {
 		p = p[:t.Chunk]
 	}
 	n, err := io.ReadFull(t.src, p)
+	if t.Tamper != nil {
+		t.Tamper(t, len(t.Bytes), p[:n])
+	}
 	t.Reads = append(t.Reads, Read{Off: len(t.Bytes), N: n, Tag: t.Mark})
 	t.Bytes = append(t.Bytes, p[:n]...)
 	return n, err
